@@ -4,7 +4,7 @@ from checks import c01
 
 FUNCTIONS = c01.FUNCTIONS
 BOUNDS = {
-    'quick': 'k in {2,3}; n = 1 (4 tags, unary rules), n = 2 (2 tags per word; G5, G5r, G4 with duplicate results), n = 3 with one admitted tag per word (G1, GU: 2 derivations); all scores solver variables; per path: count = min(k, #derivations), trees pairwise different, scores non-increasing, every derivation not returned scores <= the last returned one, first result optimal',
+    'quick': 'k in {2,3}; n = 1 (4 tags, unary rules), n = 2 (2 tags per word; G5, G5r, G4 with duplicate results), n = 3 with one admitted tag per word (G1, GU: 2 derivations); n = 3 with two tags on the middle word (G9r, head-final, 3 derivations, k = 2; the cells no derivation uses and the unambiguous words' tag scores held at stated constants); all scores solver variables; per path: count = min(k, #derivations), trees pairwise different, scores non-increasing, every derivation not returned scores <= the last returned one, first result optimal',
     'thorough': 'adds n = 3 with G3c/unary, k = 3 on GU n = 4 (5 derivations)',
 }
 OUTSIDE = c01.OUTSIDE + '; k > 3'
@@ -22,6 +22,9 @@ def obligations(tier):
     obs.append(S.SOb('C10.nbest[G1,n=3,tags=1,k=2]', S.G1(True), 3, S.one_tag(3, 3), pruning=1, penalty='0', nbest=2))
     obs.append(S.SOb('C10.nbest[G2,n=3,tags=1,k=3]', S.G1(False), 3, S.one_tag(3, 3), pruning=1, penalty='0', nbest=3))
     obs.append(S.SOb('C10.nbest[G1,n=3,tags=1,k=2,max_step=6]', S.G1(True), 3, S.one_tag(3, 3), pruning=1, penalty='0', nbest=2, max_step=6))
+    for hl in ((False,) if q else (False, True)):
+        below, eq = S.G9_slice(hl)
+        obs.append(S.SOb('C10.nbest[%s,n=3,tags=1-2-1,k=2]' % ('G9' if hl else 'G9r'), S.G9(hl), 3, below, pruning=2, penalty='0', nbest=2, eq=eq))
     if not q:
         obs.append(S.SOb('C10.nbest[GU,n=4,tags=1,k=3]', c01.GUn(4), 4, S.one_tag(4, 4), pruning=1, penalty='0', nbest=3, max_seconds=1500))
         obs.append(S.SOb('C10.nbest[G3c,n=2,tags=2,k=2]', S.G3(True), 2, pruning=2, penalty='sym', nbest=2, max_seconds=900))
